@@ -70,6 +70,7 @@ func installKnobs(s *sim.Sim, k plan.Knobs) {
 	vbytes.Enabled = true
 	vbytes.GetFill = k.GetFill
 	vbytes.Quarantine = k.Quarantine
+	vbytes.PassDoubleRelease = k.PassDoubleRelease
 	vbytes.Report = func(clause, detail string) { s.Fail("C20", clause, "%s", detail) }
 	vsync.PoolPoison = k.PoolPoison
 	vsync.PoolQuarantine = k.PoolQuarantine
